@@ -1,4 +1,5 @@
 """C17 — rendered error reports are terminal-safe, cropped and show the right line (DESIGN §4 C17)."""
+import re
 from ..mir import MissingAnchor, sym_contains, norm
 from ..rules import render, aggregates, last_seg, bool_switches, must_pass, switch_edges, int_consts, compares
 
@@ -25,9 +26,41 @@ def takes_formatter(f):
     return any("std::fmt::Formatter" in l["ty"] for l in f.locals[1:f.nargs + 1])
 
 
+def rule_ring_accounting(ctx, fx, config):
+    """WHO-WRITES:ring — the reader's recent-bytes window knows where it starts (`ring_start_offset`, `ring_start_line`)
+    because one function, `push_ring_bytes`, accounts for every byte pushed in and every byte (and newline) evicted.  A byte
+    pushed into the ring anywhere else — the buffer overwrites its oldest byte when full — leaves the start line behind, and
+    the snippet of a reader error shows the right line numbers over the wrong lines."""
+    allowed = {"ring_reader::RingReader::push_ring_bytes"}
+    n, bad = 0, []
+    for f in sorted(fx.fns.values(), key=lambda g: g.npath):
+        if not f.file.endswith("ring_reader.rs") or f.npath.startswith("ring_reader::tests") or f.npath.startswith("ring_reader::FixedRingBuffer"):
+            continue
+        for b, t in f.calls():
+            c = last_seg(fx.callee(t))
+            if c in ("push_back", "push_front", "push", "extend", "extend_from_slice", "append") and t["args"]:
+                with f.deep():
+                    a0 = render(f.sym_operand(t["args"][0]))
+                if re.search(r"self\.ring$", a0):
+                    n += 1
+                    ctx.saw(f)
+                    root = fx.fns[f.root].npath if f.kind == "closure" and f.root in fx.fns else f.npath
+                    if root not in allowed:
+                        bad.append("%s (line %s)" % (f.name, t.get("ln")))
+    ctx.check(not bad, "WHO-WRITES", "C17:WHO-WRITES:ring", "bytes enter the recent-bytes window through push_ring_bytes only",
+              "the recent-bytes ring is also filled by %s, which does not account for evicted newlines: `ring_start_line` falls behind and reader-side snippets show the wrong lines under the right numbers" % ", ".join(bad), config, None)
+    ctx.floor("WHO-WRITES.ring-pushes", n, 1, config)
+    pr = fx.fn("ring_reader::RingReader::push_ring_bytes")
+    lines = [b for b, i, s_ in pr.stmts() if s_["k"] == "assign" and s_["p"]["pr"] and render(pr.sym_place(s_["p"])) == "self.ring_start_line"]
+    pops = [b for b, t in pr.calls() if last_seg(fx.callee(t)) == "pop_front"]
+    ctx.check(bool(lines) and bool(pops) and all(any(pr.dominates(pb, lb) for pb in pops) for lb in lines), "WHO-WRITES", "C17:WHO-WRITES:ring:eviction-counts-lines", "an evicted newline advances the window's start line",
+              "push_ring_bytes no longer advances `ring_start_line` when it evicts a byte", config, ctx.where(pr))
+
+
 def run(ctx):
     for config in ctx.configs:
         fx = ctx.facts(config)
+        rule_ring_accounting(ctx, fx, config)
         entry = fx.fn(ENTRY)
         aw = fx.fn(ADAPTER_WRITE)
         ctx.saw(entry)
